@@ -65,6 +65,14 @@ pub fn check_text(s: &str) -> Vec<Finding> {
             (Ok(_), Err(why)) => bad.push((format!("accepts-invalid-{}", why), format!("Name::new({:?}) accepted; grammar rejects ({})", s, why))),
             (Err(e), Ok(_)) => bad.push(("rejects-valid".into(), format!("Name::new({:?}) rejected with {:?}; grammar accepts", s, e))),
         }
+        {
+            use std::convert::TryFrom;
+            let a = Name::new(s).ok();
+            let b = Name::try_from(s).ok();
+            if a.is_some() != b.is_some() || (a.is_some() && a != b) {
+                bad.push(("try_from-disagrees".into(), format!("Name::try_from({:?}) and Name::new disagree", s)));
+            }
+        }
         // Label::new on the same text taken as a single label
         let lexp = label_ok(s.as_bytes());
         let lgot = Label::new(s.as_bytes()).is_ok();
